@@ -34,7 +34,7 @@ func zzChooseNote() zzNote {
 		n.sp = zz.Choose(2) == 0
 	}
 	if n.kind == 2 {
-		n.ph = 2 * zz.Choose(2)
+		n.ph = zz.Choose(3)
 	}
 	return n
 }
@@ -260,6 +260,20 @@ func ZZ_C11_Notation() {
 				zz.Assert(t == "    "+tt+dashText(sp)+"?"+"??"[:ph], "generated-open-range-follows-file-notation")
 			} else if ok {
 				zz.Assert(len(t) > 4+len(tt) && t[4:4+len(tt)] == tt, "generated-time-follows-clock-convention")
+			}
+			if !phOK {
+				// no agreement on the placeholder length: still one that the file's records use
+				q := 0
+				for i := 0; i < len(t); i++ {
+					if t[i] == '?' {
+						q++
+					}
+				}
+				used := false
+				for _, v := range tPh.votes {
+					used = used || v == q-1
+				}
+				zz.Assert(used, "inserted-style-is-one-the-file-uses")
 			}
 		}
 	}
